@@ -6,6 +6,9 @@ per-cell closure, cells_faces on the first face).  The workload builds all six
 templates on generated meshes; the mask clause compares masked and unmasked
 regions as sets of faces.
 
+Fourth audit: the complementary half of the rotated boundary cell (which no area vector feels) is judged against an own table of
+rotations in the hook and by the closed form of ``dXdr[:, -1]`` on parallelepiped cells; flags and rule that gate the clauses are the caller's.
+
 The expected faces (surface selection, mask clause, emptied selections) come from an own table of the cells' reference
 coordinates, not from the library's ``cells_faces``; bodies carry points without cells, are rings / revolved rings / two bodies
 in one mesh, have their cells numbered from any corner; masks and flags arrive in every admissible type.
@@ -41,22 +44,8 @@ def faces_as_sets_list(rb):
     return [frozenset(f) for f in np.asarray(rb.mesh.cells_faces).tolist()]
 
 
-def _reference_nodes():
-    """Reference coordinates of the nodes of the six cell types, written down from the (VTK) numbering convention itself:
-    corners counter-clockwise (bottom, then top), mid-edge nodes in the order of the edges (bottom ring, top ring, verticals),
-    mid-face nodes -x +x -y +y -z +z, centre.  Own table: nothing is read from the library's elements or boundary tables."""
-    q = np.array([[-1, -1], [1, -1], [1, 1], [-1, 1]], float)
-    h = np.array([[-1, -1, -1], [1, -1, -1], [1, 1, -1], [-1, 1, -1], [-1, -1, 1], [1, -1, 1], [1, 1, 1], [-1, 1, 1]], float)
-    qe = [(0, 1), (1, 2), (2, 3), (3, 0)]
-    he = qe + [(4, 5), (5, 6), (6, 7), (7, 4), (0, 4), (1, 5), (2, 6), (3, 7)]
-    q8 = np.vstack([q] + [0.5 * (q[a] + q[b]) for a, b in qe])
-    h20 = np.vstack([h] + [0.5 * (h[a] + h[b]) for a, b in he])
-    hf = np.array([[-1, 0, 0], [1, 0, 0], [0, -1, 0], [0, 1, 0], [0, 0, -1], [0, 0, 1], [0, 0, 0]], float)
-    return {"quad": q, "quad8": q8, "quad9": np.vstack([q8, [[0.0, 0.0]]]), "hexahedron": h, "hexahedron20": h20,
-            "hexahedron27": np.vstack([h20, hf])}
-
-
-REF = _reference_nodes()
+# own table of reference coordinates (the monitor judges the rotated boundary cells against the same table)
+REF = MB.REF
 
 
 def own_faces(mesh):
@@ -71,23 +60,7 @@ def own_faces(mesh):
     return out
 
 
-def proper_rotations(dim):
-    """The rotations of the reference cell onto itself (signed permutation matrices of determinant +1) without the identity."""
-    import itertools
-    out = []
-    for p in itertools.permutations(range(dim)):
-        for sg in itertools.product((-1.0, 1.0), repeat=dim):
-            Q = np.zeros((dim, dim))
-            Q[np.arange(dim), p] = sg
-            if np.linalg.det(Q) > 0 and not np.allclose(Q, np.eye(dim)):
-                out.append(Q)
-    return out
-
-
-def local_renumbering(cell_type, Q):
-    """perm with REF[perm[a]] = Q REF[a]: ``cells[:, perm]`` is the same cell, numbered from another corner (still positive)."""
-    ref = REF[cell_type]
-    return np.array([int(np.where(np.all(np.isclose(ref, Q @ x), axis=1))[0][0]) for x in ref])
+proper_rotations, local_renumbering = MB.proper_rotations, MB.local_renumbering
 
 
 def selected_points(m_arg, n):
@@ -124,7 +97,13 @@ def other_topology(fem, fam, kind, rng, unit):
     return fem.Mesh(m.points * unit, m.cells, m.cell_type)
 
 
-def judge_moved(run, rb, expected, label, nq=None, volume=None):
+def asked(only_surface=True, ensure_3d=False, mask=None, nq=None, **ignored):
+    """The flags a region was constructed with, as the workload passed them (documented defaults for the others): what gates the
+    clauses of the monitor for regions that went through copy / reload (the region's own attributes are not asked)."""
+    return {"only_surface": bool(only_surface), "ensure_3d": bool(ensure_3d), "masked": mask is not None, "nq": nq}
+
+
+def judge_moved(run, rb, expected, label, nq=None, volume=None, flags=None):
     """A region that went through copy / reload describes the geometry the caller handed over: its points are those points (a
     shadow of the arguments; a refresh that silently keeps the old geometry is consistent in itself), its rule is the requested
     one, and all identities of the hook hold for it."""
@@ -134,7 +113,7 @@ def judge_moved(run, rb, expected, label, nq=None, volume=None):
     if nq is not None and not (rb.dA.shape[1] == rb.dV.shape[0] == rb.normals.shape[1] == nq):
         run.fail("boundary.geometry", "celltype=%s clause=rule-of-the-refreshed-region" % label,
                  "%s: dA / dV / normals are not given at the points of the requested rule" % label, {"dA": rb.dA.shape, "nq": nq})
-    MB.check_boundary_region(run, rb, expected, label=label, volume=volume, generated=True)
+    MB.check_boundary_region(run, rb, expected, label=label, volume=volume, generated=True, flags=None if flags is None else dict(flags, nq=nq))
 
 
 def case(fam, geometry, rep):
@@ -281,7 +260,7 @@ def case(fam, geometry, rep):
                              {"got": len(rt.mesh.cells), "expected": len(t_once) if s_ else len(t_all)})
             # copies and reloads of a boundary region are boundary regions of the same (resp. the new) geometry
             rb0 = built[(True, False)]
-            MB.check_boundary_region(run, rb0.copy(), mesh, label=fam + "[copy]", volume=volume, generated=True)
+            MB.check_boundary_region(run, rb0.copy(), mesh, label=fam + "[copy]", volume=volume, generated=True, flags=asked())
             run.units[fam + ":copy"] += 1
             size = float(np.ptp(mesh.points[used], axis=0).max())  # translations in units of the body (a far-away body only costs digits)
             m_upd = mesh.copy()
@@ -292,7 +271,8 @@ def case(fam, geometry, rep):
             def vol_of(*maps):  # closed-form volume of an affine image of the body
                 return None if volume is None else volume * float(np.prod([np.linalg.det(a) for a in maps]))
 
-            MB.check_boundary_region(run, rbu, mesh.copy(points=mesh.points @ A_.T + size * t_), label=fam + "[reload]", volume=vol_of(A_), generated=True)
+            MB.check_boundary_region(run, rbu, mesh.copy(points=mesh.points @ A_.T + size * t_), label=fam + "[reload]", volume=vol_of(A_), generated=True,
+                                     flags=asked())
             run.units[fam + ":reload"] += 1
             # the documented refresh after moving the body: the *user's* mesh is updated and hands itself to the region's reload
             m_usr = mesh.copy()
@@ -300,7 +280,7 @@ def case(fam, geometry, rep):
             A2, t2 = gen.random_affine(rng, dim)
             m_usr.update(points=m_usr.points @ A2.T + size * t2, callback=rbv.reload)
             MB.check_boundary_region(run, rbv, mesh.copy(points=mesh.points @ A2.T + size * t2), label=fam + "[reload by the body's mesh]",
-                                     volume=vol_of(A2), generated=True)
+                                     volume=vol_of(A2), generated=True, flags=asked(only_surface=bool(rep % 2 == 0)))
             run.units[fam + ":reload-by-body-mesh"] += 1
             # the same methods on a region with drawn flags, where the natural call order hides nothing: the refresh twice in a row
             # (after the first one the region's points are the caller's array), a copy with another rule, a reload with another
@@ -317,21 +297,21 @@ def case(fam, geometry, rep):
                 moved = moved @ A3.T + size * t3
                 size = float(np.ptp(moved[used], axis=0).max())
                 m_w.update(points=moved.copy(), callback=rbw.reload)
-            judge_moved(run, rbw, mesh.copy(points=moved), fam + "[second reload by the body's mesh]", volume=vol_of(*maps))
+            judge_moved(run, rbw, mesh.copy(points=moved), fam + "[second reload by the body's mesh]", volume=vol_of(*maps), flags=asked(**kw))
             q3 = fem.GaussLegendreBoundary(order=3, dim=dim)
             rbc = rbw.copy(quadrature=q3)
-            judge_moved(run, rbc, mesh.copy(points=moved), fam + "[copy with another rule]", nq=4 ** (dim - 1), volume=vol_of(*maps))
-            judge_moved(run, rbw, mesh.copy(points=moved), fam + "[region after it was copied]", volume=vol_of(*maps))
+            judge_moved(run, rbc, mesh.copy(points=moved), fam + "[copy with another rule]", nq=4 ** (dim - 1), volume=vol_of(*maps), flags=asked(**kw))
+            judge_moved(run, rbw, mesh.copy(points=moved), fam + "[region after it was copied]", volume=vol_of(*maps), flags=asked(**kw))
             A3, t3 = gen.random_affine(rng, dim)
             moved2 = moved @ A3.T + size * t3
             rbw.mesh.points[:] = moved2
             rbw.reload(quadrature=fem.GaussLegendreBoundary(order=2, dim=dim, permute=False))
             judge_moved(run, rbw, mesh.copy(points=moved2), fam + "[reload with another rule after an in-place move]", nq=3 ** (dim - 1),
-                        volume=vol_of(*(maps + [A3])))
-            judge_moved(run, rbc, mesh.copy(points=moved), fam + "[copy after the original moved]", nq=4 ** (dim - 1), volume=vol_of(*maps))
+                        volume=vol_of(*(maps + [A3])), flags=asked(**kw))
+            judge_moved(run, rbc, mesh.copy(points=moved), fam + "[copy after the original moved]", nq=4 ** (dim - 1), volume=vol_of(*maps), flags=asked(**kw))
             rbw.mesh.points[:] = moved
             rbw.reload()
-            judge_moved(run, rbw, mesh.copy(points=moved), fam + "[bare reload after an in-place move]", nq=3 ** (dim - 1), volume=vol_of(*maps))
+            judge_moved(run, rbw, mesh.copy(points=moved), fam + "[bare reload after an in-place move]", nq=3 ** (dim - 1), volume=vol_of(*maps), flags=asked(**kw))
             # a copy cast to single precision describes the same surface: its arrays are those of the region, rounded (own cast; taken
             # from the unmoved body, whose areas of 1e-14 .. 1e6 are far inside the range of single precision)
             r32 = rb0.astype(np.float32)
@@ -345,6 +325,23 @@ def case(fam, geometry, rep):
             one = np.einsum("IKqc,KJqc->IJqc", rb0.dXdr, rb0.drdX)
             run.compare("boundary.geometry", "celltype=%s clause=dXdr-times-drdX" % fam, maxabs(one - np.eye(dim).reshape(dim, dim, 1, 1)), 1e-10,
                         "%s: region.dXdr is not the inverse of region.drdX after the faces were initialised" % fam, unit=fam + ":dXdr")
+            # ... and it is the derivative of the position in the parent cell: where the cells are parallelograms / parallelepipeds
+            # (undistorted and affine class: X = X_c + J r in every cell) the column that belongs to the direction into the cell is the
+            # vector from the centre of the face to the centre of the cell, at every point of the rule. Closed form from the caller's
+            # points and the own table of faces; this column is made by the nodes off the face alone (the complementary half of
+            # the boundary cell, which no area vector feels - fourth audit). The owner of a face is looked up by its set of points.
+            if geometry in ("undistorted", "affine"):
+                corner = np.zeros(mesh.npoints, bool)
+                corner[np.unique(mesh.cells[:, : MB.NV[fam]])] = True
+                centre = {frozenset(c): mesh.points[c[: MB.NV[fam]]].mean(0) for c in mesh.cells.tolist()}
+                for key_ in ((True, False), (False, False)):
+                    rbk = built[key_]
+                    into = np.array([centre[frozenset(c)] - mesh.points[[i for i in f if corner[i]]].mean(0)
+                                     for c, f in zip(rbk.mesh.cells.tolist(), np.asarray(rbk.mesh.cells_faces).tolist())]).T  # (dim, faces)
+                    err = maxabs(np.asarray(rbk.dXdr)[:, -1] - into[:, None, :]) / maxabs(into)
+                    run.compare("boundary.geometry", "celltype=%s clause=dXdr-into-the-cell only_surface=%s" % (fam, key_[0]), err, 1e-11,
+                                "%s: the last column of region.dXdr is not the vector from the centre of the face to the centre of its cell "
+                                "(parallelepiped cells)" % fam, unit=fam + ":dXdr-into-the-cell")
             # surface selection == faces that occur exactly once among all faces
             allf = built[(False, False)]
             cnt = {}
@@ -481,6 +478,8 @@ def _required():
                                                      "reload-twice+copy-rule+bare-reload", "astype")]
     req += [fam + ":mesh_faces" for fam in FACE_MESH] + ["mask-type=" + k for k in MASK_TYPES]
     req += ["mesh-arrays=column-major+int32", "refreshed-points", "quadrature-order=0:not-permuted"]
+    # fourth audit: the boundary cell against the own table of rotations, the caller's points and rule, the column of dXdr into the cell
+    req += [fam + ":" + k for fam in TEMPLATES for k in ("rotated-cell", "points-of-the-region", "points-of-the-requested-rule", "dXdr-into-the-cell")]
     return req
 
 
@@ -493,7 +492,10 @@ SPEC = {
              "cells numbered from any corner, single cells; masks as boolean / index arrays and lists, int32, negative, repeated, "
              "empty, incomplete faces; flags as numpy booleans / integers; the generic constructor, rules not permuted / of order 0; "
              "copy, reload (twice, with another rule, bare after an in-place move), astype, mesh_faces. Expected faces from an own table "
-             "of reference coordinates; face area vectors from the rim of cells_faces; flux against the generator's closed-form volume"),
+             "of reference coordinates; face area vectors from the rim of cells_faces; flux against the generator's closed-form volume. "
+             "The clauses are gated by the flags / rule the caller passed (hook on the templates), geometry from the caller's points; every "
+             "boundary cell is a proper rotation (own table, 4 / 24) of its parent cell with the face at r_last = -1, and on parallelepiped "
+             "cells dXdr[:, -1] is the vector from the face's centre to the cell's centre"),
     "assumptions": ["outwardness is judged against the vertex centroid of the owning cell (valid for the generated, mildly "
                     "distorted cells)", "the volume on the right-hand side of the flux identity is the one measured by the "
                     "corresponding volume region (as the property states); where the generator knows the volume in closed form the "
